@@ -271,8 +271,14 @@ def run(ctx):
 
     g = objgen.G(ctx.rng)
     objects = list(zoo())
+    from skops.io import dumps as _dumps
+
     for i in range(ctx.budget(6, 200)):
         v, _ = g.value(0, supported=True)
+        try:
+            _dumps(v)                      # only objects that can be dumped make an input archive
+        except Exception:
+            continue
         objects.append((f"gen{i}", v))
     base, extra = configs(ctx, cur, ctx.budget(24, 1500))
     ofails, mism = [], []
